@@ -5,6 +5,7 @@ from txtorcon.util import maybe_ip_addr
 
 from twisted.internet.interfaces import IReactorTime
 from twisted.internet import reactor
+from twisted.python import log
 
 import datetime
 import shlex
@@ -131,7 +132,12 @@ class AddrMap(object):
 
     def notify(self, method, *args, **kwargs):
         for listener in self.listeners:
-            getattr(listener, method)(*args, **kwargs)
+            # one listener that raises must not keep the others from
+            # hearing about this change
+            try:
+                getattr(listener, method)(*args, **kwargs)
+            except Exception:
+                log.err()
 
     def add_listener(self, listener):
         if listener not in self.listeners:
